@@ -1370,7 +1370,7 @@ pub fn check_trans(cfg: &Cfg, pre: &Snap, probe: &Probe, op: Op, t: &TransRes, e
                             let none = vec![];
                             let acc = probe.est_after_access.get(k as usize).unwrap_or(&none);
                             if !acc.is_empty() && !acc.iter().any(|a| a == qe) {
-                                out.push(Finding::new("C10", "get_records_one_access", op_name(&op), format!("estimator after the call is neither of the states one recorded access of key {} produces: {}", k, ctx(Some(post)))));
+                                out.push(Finding::new("C10", "get_records_one_access", op_name(&op), format!("estimator after the call is none of the states one recorded access of key {} produces (with or without a sample tick, before or after it): {}", k, ctx(Some(post)))));
                             }
                         }
                         Op::Purge => {
